@@ -66,10 +66,11 @@ SLast(s)  == {Out(s, R(IF s.ord = <<>> THEN NoVal ELSE s.ord[Len(s.ord)], <<>>))
 SNext(s, n) == LET i == PosOf(s.ord, n) IN {Out(s, R(IF i = Len(s.ord) THEN NoVal ELSE s.ord[i + 1], <<>>))}
 SPrev(s, n) == LET i == PosOf(s.ord, n) IN {Out(s, R(IF i = 1 THEN NoVal ELSE s.ord[i - 1], <<>>))}
 SLen(s)   == {Out(s, R(Len(s.ord), <<>>))}
-\* ares_slist_destroy: every node destroyed, first to last
+\* ares_slist_destroy: every node destroyed exactly once (order not documented: d compared sorted)
+AscSeq(q)  == SortSeq(q, LAMBDA a, b : a < b)
 Empty      == St(<<>>, <<>>)
 \* (leak = library allocations of the history still live afterwards: none)
-SDestroy(s) == {Out(Empty, [out |-> NoVal, d |-> s.ord, leak |-> 0])}
+SDestroy(s) == {Out(Empty, [out |-> NoVal, d |-> AscSeq(s.ord), leak |-> 0])}
 SCreate     == {Out(Empty, R(NoVal, <<>>))}
 
 \* what the harness sees through node_first/next, node_last/prev, len
